@@ -188,6 +188,77 @@ pub fn random_fault(rng: &mut Rng, text_len: usize, n_lines: usize) -> SFault {
     }
 }
 
+/// rough classification of the lines of a btor2 text: (line index, line id, what the line is)
+#[derive(Clone, Copy, Debug, PartialEq, Eq)]
+enum LineKind {
+    BvSort,
+    ArraySort,
+    BvNode,
+    ArrayNode,
+    Other,
+}
+
+fn classify_lines(text: &str) -> Vec<(usize, String, LineKind, Vec<String>)> {
+    let mut sort_kind: std::collections::BTreeMap<String, LineKind> = Default::default();
+    let mut out = vec![];
+    for (i, line) in text.split('\n').enumerate() {
+        let toks: Vec<String> = line.split(' ').map(|s| s.to_string()).collect();
+        if toks.len() < 2 {
+            out.push((i, String::new(), LineKind::Other, toks));
+            continue;
+        }
+        let id = toks[0].clone();
+        let kind = match toks[1].as_str() {
+            "sort" => {
+                let k = if toks.get(2).map(|s| s.as_str()) == Some("array") { LineKind::ArraySort } else { LineKind::BvSort };
+                sort_kind.insert(id.clone(), k);
+                k
+            }
+            "init" | "next" | "bad" | "constraint" | "output" | "fair" | "justice" => LineKind::Other,
+            _ => match toks.get(2).and_then(|s| sort_kind.get(s)) {
+                Some(LineKind::ArraySort) => LineKind::ArrayNode,
+                Some(LineKind::BvSort) => LineKind::BvNode,
+                _ => LineKind::Other,
+            },
+        };
+        out.push((i, id, kind, toks));
+    }
+    out
+}
+
+/// a targeted token corruption: an operand or sort reference is redirected to a line of another
+/// category (array instead of bit-vector node, another sort, a sort instead of a node, ...)
+fn smart_fault(rng: &mut Rng, text: &str) -> Option<SFault> {
+    let lines = classify_lines(text);
+    let cands: Vec<&(usize, String, LineKind, Vec<String>)> = lines.iter().filter(|l| l.3.len() >= 3).collect();
+    if cands.is_empty() {
+        return None;
+    }
+    let (li, _, _, toks) = *rng.pick(&cands);
+    // which token holds a reference? sort reference at 2 for nodes, operands from 3; for
+    // bad/constraint/output the operand is token 2; for init/next: sort 2, state 3, value 4
+    let op = toks[1].as_str();
+    let ref_positions: Vec<usize> = match op {
+        "sort" => (3..toks.len()).collect(),
+        "bad" | "constraint" | "output" => vec![2],
+        _ => (2..toks.len().min(6)).collect(),
+    };
+    if ref_positions.is_empty() {
+        return None;
+    }
+    let pos = *rng.pick(&ref_positions);
+    let want = *rng.pick(&[LineKind::ArrayNode, LineKind::ArrayNode, LineKind::BvNode, LineKind::ArraySort, LineKind::BvSort]);
+    let pool: Vec<&String> = lines.iter().filter(|l| l.2 == want && !l.1.is_empty()).map(|l| &l.1).collect();
+    if pool.is_empty() {
+        return None;
+    }
+    let mut id = (*rng.pick(&pool)).clone();
+    if rng.chance(1, 6) {
+        id = format!("-{id}");
+    }
+    Some(SFault::Token(*li, pos, Some(id)))
+}
+
 #[derive(Clone, Debug)]
 pub struct StoreScenario {
     pub base_name: String,
@@ -458,6 +529,12 @@ impl Property for C18 {
             let n = 1 + frng.usize_below(4);
             plans.push((0..n).map(|_| random_fault(&mut frng, text_len, n_lines)).collect());
         }
+        // targeted reference corruptions (wrong-kind operands, wrong sorts): single faults
+        for _ in 0..n_random / 2 {
+            if let Some(f) = smart_fault(&mut frng, &base_text) {
+                plans.push(vec![f]);
+            }
+        }
         if acc.samples.is_empty() {
             let scn = StoreScenario {
                 base_name: base_name.clone(),
@@ -532,7 +609,7 @@ impl Property for C18 {
     fn meta(&self) -> EvidenceMeta {
         EvidenceMeta {
             level: "fault_enumeration",
-            rule: "a valid btor2 file (every shipped inputs/**/*.btor* up to 6 kB in quick / 200 kB in thorough, or generator output incl. division operators and init-without-next) is 'stored'; for files of <= 60 lines every single line-level fault is enumerated (line lost, duplicated, swapped with its neighbour, torn tail at every line boundary); on top, seeded fault sequences of 1..4 storage faults: bit flip, byte deleted/inserted (incl. invalid UTF-8 bytes), torn tail at a random byte, line lost/duplicated/swapped/moved, token missing, token replaced (another line id, negated id, 0 / -0, numbers around 2^31, 2^32, 2^64, 10^30, non-ASCII text, another operator or keyword, empty). Oracle: btor2::parse_str under catch_unwind returns None or Some(system); a panic is a violation unless its message is one of the documented not-yet-supported operators; for Some(system): every reachable expression type-checks node by node and has non-zero width, init/next have their state's type, bads/constraints are 1 bit wide, every reachable symbol is a declared input or state. Distinct by corrupted text.".into(),
+            rule: "a valid btor2 file (every shipped inputs/**/*.btor* up to 6 kB in quick / 200 kB in thorough, or generator output incl. division operators and init-without-next) is 'stored'; for files of <= 60 lines every single line-level fault is enumerated (line lost, duplicated, swapped with its neighbour, torn tail at every line boundary); on top, seeded fault sequences of 1..4 storage faults: bit flip, byte deleted/inserted (incl. invalid UTF-8 bytes), torn tail at a random byte, line lost/duplicated/swapped/moved, token missing, a reference redirected to a line of another category (array node where a bit-vector node is expected and vice versa, sort lines, other sorts), token replaced (another line id, negated id, 0 / -0, numbers around 2^31, 2^32, 2^64, 10^30, non-ASCII text, another operator or keyword, empty). Oracle: btor2::parse_str under catch_unwind returns None or Some(system); a panic is a violation unless its message is one of the documented not-yet-supported operators; for Some(system): every reachable expression type-checks node by node and has non-zero width, init/next have their state's type, bads/constraints are 1 bit wide, every reachable symbol is a declared input or state. Distinct by corrupted text.".into(),
             assumptions: vec![
                 "faults are applied to the bytes handed to parse_str (parse_file opens the file itself, so there is no stream seam to perturb)".into(),
                 "invalid UTF-8 produced by byte faults is replaced lossily before the &str API is called".into(),
